@@ -6,6 +6,7 @@ import (
 	"sort"
 	"strconv"
 	"strings"
+	"sync/atomic"
 
 	"github.com/EliCDavis/jbtf"
 	"github.com/EliCDavis/polyform/generator/artifact"
@@ -38,12 +39,11 @@ func New(typeFactory *refutil.TypeFactory) *Instance {
 	}
 }
 func (i *Instance) ModelVersion() uint32 {
-	return i.movelVersion
+	return atomic.LoadUint32(&i.movelVersion)
 }
 
 func (i *Instance) incModelVersion() {
-	// TODO: Make thread safe
-	i.movelVersion++
+	atomic.AddUint32(&i.movelVersion, 1)
 }
 
 func (i *Instance) NodeInstanceSchema(node nodes.Node) schema.NodeInstance {
